@@ -66,11 +66,13 @@ EditEab == /\ Bound /\ Step /\ cfg' = [cfg EXCEPT !.eab = IF cfg.eab = 0 THEN 1 
 (* Restart: Account::load + update_keys (+ save when a new key was made). *)
 Restart ==
     /\ Bound /\ Step
-    /\ IF img.cur.kt # cfg.kt
+    /\ IF img.cur.kt # cfg.kt /\ "KeyTypeEditIgnored" \notin Deviations
        THEN /\ img' = [img EXCEPT !.cur = [id |-> nextKey, kt |-> cfg.kt], !.past = Append(img.past, img.cur.id)]
             /\ nextKey' = nextKey + 1
        ELSE UNCHANGED <<img, nextKey>>
-    /\ bad' = {}          \* C11_Durable is judged on real traces (the model's restart is the identity by construction)
+    \* C11_Durable is judged on real traces (the model's restart is the identity by construction); what a restart owes the
+    \* configuration is a current key of the configured type (in traces: judged when the run's renewal ends)
+    /\ bad' = Chk("C11_InStepAfterRenew", img'.cur.kt = cfg.kt)
     /\ UNCHANGED <<cfg, ca, justified>>
 
 CaForgets(e) == /\ Bound /\ Step /\ ca[e].exists
